@@ -116,3 +116,160 @@ def unit_transform(cmode, amode):
 
 
 UNITS = {f"_transform_cand_annot.{c}.{a}": unit_transform(c, a) for c, a in CASES}
+
+
+# ------------------------------------------------------------------------------------------ _validate_data: batch size clipped to the pairs
+def unit_validate(cmode, amode):
+    """MultiAnnotatorPoolQueryStrategy._validate_data: the batch size handed on is min(batch size of the base-class validation, number of
+    candidate pairs), where the number of pairs is |candidates| x |annotators| for index / None specifications and the number of True
+    entries of the availability matrix resp. of the missing-label mask otherwise; annotator indices come back validated by check_indices,
+    an availability matrix comes back boolean with its rows re-ordered like the (sorted) candidate indices."""
+    def lib():
+        L = pool_lib()
+
+        def base_validate(E, st, recv, args, kw, node):
+            """assumed contract of PoolQueryStrategy._validate_data (units pool_base._validate_data.*): data unchanged, index candidates
+            sorted (ascending rearrangement of the given ones), batch size not increased"""
+            names = ["X", "y", "candidates", "batch_size", "return_utilities", "reset", "check_X_dict"]
+            a = dict(zip(names, args))
+            a.update(kw)
+            od = st.get(recv)
+            st.put(recv, ObjData(od.cls, dict(od.fields, missing_label_=od.fields.get("missing_label"))))
+            bs_s = fresh("batch_size_base", I)
+            st.assume(bs_s >= 0, bs_s <= to_int(a["batch_size"]))
+            ctxh["bs_s"] = bs_s
+            cand = a["candidates"]
+            if cmode == "idx":
+                c = st.get(cand)
+                srt = L.functions["np.sort"](E, st, [cand], {}, node)          # validated candidates: ascending rearrangement
+                ctxh["cand_sorted"] = st.get(srt)
+                cand = srt
+            return (a["X"], a["y"], cand, bs_s, a["return_utilities"])
+        for c in ("PoolQueryStrategy", "SingleAnnotatorPoolQueryStrategy"):
+            L.contracts[f"{c}._validate_data"] = base_validate
+
+        @L.fn("check_array")
+        def _ca(E, st, args, kw, node):
+            return args[0]
+
+        @L.fn("check_indices")
+        def _ci(E, st, args, kw, node):
+            """check_indices(annotators, y, dim=1): strictly increasing, the same set of indices, all below y.shape[1]"""
+            a = as_array(args[0], st)
+            r = L.functions["np.unique"](E, st, [args[0]], {}, node)
+            rd = st.get(r)
+            t = z3.Int("ci_t")
+            lim = to_int(as_array(args[1], st).shape[kw.get("dim", 0)])
+            st.assume(z3.ForAll([t], z3.Implies(z3.And(0 <= t, t < to_int(rd.shape[0])), to_int(rd.sel(t)) < lim)))
+            ctxh["annot_checked"] = rd
+            return r
+
+        @L.fn("np.argsort")
+        def _argsort(E, st, args, kw, node):
+            """np.argsort of a 1-D integer array: a bijection p of the positions with a[p[0]] <= a[p[1]] <= ..."""
+            a = as_array(args[0], st)
+            n = to_int(a.shape[0])
+            p, pi = fresh_fn("argsort", I, I), fresh_fn("argsort_inv", I, I)
+            t, u = z3.Ints("as_t as_u")
+            st.assume(z3.ForAll([t], z3.Implies(z3.And(0 <= t, t < n), z3.And(0 <= p(t), p(t) < n, pi(p(t)) == t))))
+            st.assume(z3.ForAll([t], z3.Implies(z3.And(0 <= t, t < n), z3.And(0 <= pi(t), pi(t) < n, p(pi(t)) == t))))
+            st.assume(z3.ForAll([t, u], z3.Implies(z3.And(0 <= t, t < u, u < n), to_int(a.sel(p(t))) <= to_int(a.sel(p(u))))))
+            srt = getattr(a, "_sorted", None)
+            if srt is not None:
+                st.assume(z3.ForAll([t], z3.Implies(z3.And(0 <= t, t < n), to_int(srt.sel(t)) == to_int(a.sel(p(t))))))   # numpy: sort(a) == a[argsort(a)]
+            r = ArrData((n,), lambda i: p(i), "i")
+            r.argsort_of = (a, p, pi)
+            return st.alloc(r)
+
+        @L.fn("int")
+        def _int(E, st, args, kw, node):
+            return to_int(args[0])
+
+        @L.fn("warnings.warn")
+        def _warn(E, st, args, kw, node):
+            return None
+        return L
+    ctxh = {}
+
+    def setup(E, st):
+        ctxh.clear()
+        n, d, na, bs = z3.Int("n"), z3.Int("d"), z3.Int("n_annotators"), z3.Int("batch_size")
+        st.assume(n >= 1, d >= 1, na >= 1, bs >= 1)
+        X = st.alloc(ArrData((n, d), fresh_sel("X", "o", 2), "o"))
+        yd = ArrData((n, na), fresh_sel("y", "o", 2), "o")
+        ml = Opaque("missing_label")
+        selfo = st.alloc(ObjData("MultiAnnotatorPoolQueryStrategy", {"missing_label": ml, "random_state": Opaque("rs"), "__open__": True}))
+        m, k = z3.Int("m"), z3.Int("k")
+        st.assume(m >= 1, k >= 1)
+        cand = ann = None
+        if cmode == "idx":
+            c = ArrData((m,), fresh_sel("cand", "i"), "i")
+            t, u = z3.Ints("d_t d_u")
+            st.assume(z3.ForAll([t, u], z3.Implies(z3.And(0 <= t, t < u, u < m), to_int(c.sel(t)) != to_int(c.sel(u)))))     # distinct indices
+            cand = st.alloc(c)
+            ctxh["cand"] = c
+        if amode == "idx":
+            a_ = ArrData((k,), fresh_sel("annot", "i"), "i")
+            ann = st.alloc(a_)
+            ctxh["ann"] = a_
+        elif amode == "matrix":
+            rows = n if cmode == "none" else m
+            a_ = ArrData((rows, na), fresh_sel("avail", "b", 2), "b")
+            ann = st.alloc(a_)
+            ctxh["annm"] = a_
+        ctxh.update(n=n, na=na, bs=bs, m=m, k=k, y=yd, ml=ml)
+        ctxh["args"] = [selfo, X, st.alloc(yd), cand, ann, bs, True, True]
+        return ctxh
+
+    def post(E, ctx, outs):
+        rets = returns(outs)
+        if not rets:
+            E.oblige("reaches.return", [], z3.BoolVal(False))
+        n, na, m = ctx["n"], ctx["na"], ctx["m"]
+        for o in rets:
+            st = o.state
+            if not (isinstance(o.value, tuple) and len(o.value) == 6):
+                E.oblige("returns.six_values", st, False)
+                continue
+            X2, y2, c2, a2, bs2, ru2 = o.value
+            nrows = n if cmode == "none" else to_int(st.get(c2).shape[0])
+            # number of candidate pairs as the property defines it
+            if amode == "none" and cmode == "none":
+                cnt = [c for a_, c in getattr(E, "counted", []) if a_.ndim == 2 and z3.is_true(z3.simplify(
+                    z3bool(a_.sel(z3.Int("pi"), z3.Int("pj"))) == MISSING(ctx["y"].sel(z3.Int("pi"), z3.Int("pj")).sym, ctx["ml"].sym)))]
+                pairs = cnt[-1] if cnt else None
+            elif amode == "none":
+                pairs = nrows * na
+            elif amode == "idx":
+                pairs = nrows * to_int(ctx["annot_checked"].shape[0])
+            else:
+                ad = st.get(a2)
+                cnt = [c for a_, c in getattr(E, "counted", []) if a_ is ad]
+                pairs = cnt[-1] if cnt else None
+            E.oblige("C07.validate.pair_count_identified", st, z3.BoolVal(pairs is not None))
+            if pairs is None:
+                continue
+            bs_s = ctx["bs_s"]
+            E.oblige("C07.validate.batch_size_clipped_to_the_candidate_pairs", st, to_int(bs2) == z3.If(pairs < bs_s, pairs, bs_s))
+            if amode == "matrix":
+                ad = st.get(a2)
+                E.oblige("C07.validate.availability_matrix_boolean_same_shape", st, z3.And(z3.BoolVal(ad.kind == "b" and ad.ndim == 2),
+                         to_int(ad.shape[0]) == nrows, to_int(ad.shape[1]) == na))
+                if cmode == "idx":
+                    # row r of the returned matrix belongs to the r-th validated (sorted) candidate: it is the given row of that candidate
+                    cs, cg, A0 = st.get(c2), ctx["cand"], ctx["annm"]
+                    r, t, j = z3.Ints("vr vt vj")
+                    E.oblige("C07.validate.matrix_rows_follow_the_sorted_candidates", st, z3.ForAll([r, t, j], z3.Implies(
+                        z3.And(0 <= r, r < nrows, 0 <= t, t < m, 0 <= j, j < na, to_int(cg.sel(t)) == to_int(cs.sel(r))),
+                        z3bool(ad.sel(r, j)) == z3bool(A0.sel(t, j)))))
+                else:
+                    i, j = z3.Ints("vi vj")
+                    E.oblige("C07.validate.matrix_unchanged", st, z3.ForAll([i, j], z3.Implies(z3.And(0 <= i, i < n, 0 <= j, j < na),
+                             z3bool(ad.sel(i, j)) == z3bool(ctx["annm"].sel(i, j)))))
+    return se_unit(f"multiannot._validate_data.{cmode}.{amode}", FB, "MultiAnnotatorPoolQueryStrategy._validate_data",
+                   "MultiAnnotatorPoolQueryStrategy", setup, post, lib_factory=lib)
+
+
+for c_ in ("none", "idx"):
+    for a_ in ("none", "idx", "matrix"):
+        UNITS[f"_validate_data.{c_}.{a_}"] = unit_validate(c_, a_)
